@@ -43,7 +43,7 @@ def _fix_true_before(trace, i):
                for e in trace[:i])
 
 
-@rule('H1', floor=7, title='plain check() is read-only: every write, removal and VACUUM is dominated by `fix`')
+@rule('H1', floor=3, title='plain check() is read-only: every write, removal and VACUUM is dominated by `fix`')
 def h1(ctx):
     f = ctx.method('Cache', 'check')
     sites = {}
